@@ -39,7 +39,7 @@ def build_header(case):
 
 
 def gen_case(rng, tier):
-    bs = rng.weighted([(512, 2), (4096, 4), (65536, 2), (1 << 20, 1)])
+    bs = rng.weighted([(512, 2), (1536, 1), (4096, 4), (12288, 1), (65536, 2), (1 << 20, 1), (3 << 20, 1)])
     maxb = 40 if tier == "thorough" else 12
     nblocks = rng.randint(1, maxb if bs < (1 << 20) else 4)
     cut = rng.weighted([(0, 3), (rng.randrange(0, bs), 3)])
@@ -80,7 +80,10 @@ def gen_case(rng, tier):
     c = {"size": size, "block_size": bs, "map": m, "blocks_offset": blocks_offset, "data_offset": data_offset,
          "file_size": max(fsize, data_offset + 1), "place": place, "mode": mode, "salt": rng.randrange(1 << 30),
          "kind": "plain"}
-    c["reqs"] = gen_requests(rng, size, bs, n=6)
+    c["reqs"] = gen_requests(rng, size, bs, n=6, big=(12 * (1 << 20) if rng.chance(0.3) else 0))
+    # one case in four is opened over a parent (a fully allocated image of the same size): unallocated blocks
+    # then read from the parent while zero blocks must still read as zeros
+    c["parent_salt"] = rng.randrange(1 << 30) if rng.chance(0.25) else None
     return c
 
 
@@ -94,19 +97,39 @@ class VdiSuite(ReaderSuite):
         n = 1500 if tier == "thorough" else 150
         return [gen_case(rng, tier) for _ in range(n)]
 
+    def _parent_case(self, case):
+        bs = 4096
+        nb = (case["size"] + bs - 1) // bs
+        return {"size": case["size"], "block_size": bs, "map": list(range(nb)), "blocks_offset": 512,
+                "data_offset": 512 + 4 * nb + (-(4 * nb)) % 512, "salt": case["parent_salt"],
+                "file_size": 512 + 4 * nb + (-(4 * nb)) % 512 + nb * bs}
+
     def build_files(self, case):
         chunks = {0: build_header(case),
                   case["blocks_offset"]: b"".join(struct.pack("<i", e) for e in case["map"])}
-        return {"file": core.SparseFile(case["file_size"], chunks, salt=case["salt"])}
+        files = {"file": core.SparseFile(case["file_size"], chunks, salt=case["salt"])}
+        if case.get("parent_salt") is not None:
+            pc = self._parent_case(case)
+            pch = {0: build_header(pc), 512: b"".join(struct.pack("<i", e) for e in pc["map"])}
+            files["parent"] = core.SparseFile(pc["file_size"], pch, salt=pc["salt"])
+            files["parent_data_offset"] = pc["data_offset"]
+        return files
+
+    def materialiser(self, case, files):
+        pf, po = files.get("parent"), files.get("parent_data_offset", 0)
+        return lambda p: core.materialise(p, file=files["file"],
+                                          parent=(lambda o, n: pf.content(po + o, min(n, max(0, case["size"] - o)))))
 
     def open_impl(self, case, files):
         from dissect.hypervisor.disk.vdi import VDI
-        return VDI(files["file"])
+        parent = VDI(files["parent"]) if "parent" in files else None
+        return VDI(files["file"], parent=parent)
 
     def coq_img(self, case):
         ent = [(i, e) for i, e in enumerate(case["map"]) if e != -1]
         return (f"{{| v_size := {Z(case['size'])}; v_bs := {Z(case['block_size'])}; v_data := {Z(case['data_offset'])}; "
-                f"v_map := tbl {zpairs(ent)} (-1) {Z(len(case['map']))}; v_parent := false |}}")
+                f"v_map := tbl {zpairs(ent)} (-1) {Z(len(case['map']))}; "
+                f"v_parent := {core.cbool(case.get('parent_salt') is not None)} |}}")
 
     def model_term(self, case, kind, a, b):
         if kind == "raw":
@@ -121,7 +144,7 @@ class VdiSuite(ReaderSuite):
 
     def dist(self, case):
         return {"bs": case["block_size"], "place": case["place"], "mode": case["mode"],
-                "size_aligned": case["size"] % case["block_size"] == 0,
+                "size_aligned": case["size"] % case["block_size"] == 0, "parent": case.get("parent_salt") is not None,
                 "req_kinds": ",".join(sorted({r[0] for r in case["reqs"]}))}
 
 
